@@ -192,6 +192,32 @@ theorem result_handles_ent_info (rs : List (List Int)) (arr arr' : List (Option 
   have hget := (storeAll_get rs arr arr' 0 hlen h).1 i r hr j v hv
   simpa [entInfoIndex, okFieldsK, okFieldsExec] using hget
 
+/-- `Qubit.entanglement_info` on hardware with ONE communication qubit (NV), all `n` pairs requested at
+once: pair `i` is generated in virtual qubit 0 and ends up in virtual qubit `nvPairLocation n i`; exactly
+one returned qubit (number `i`) carries that virtual id, ids of returned qubits are pairwise distinct and
+below `n`, and field `j` of ITS `entanglement_info` reads field `j` of response `i` — for every `n`. -/
+theorem result_handles_ent_info_nv (rs : List (List Int)) (arr arr' : List (Option Int))
+    (hlen : ∀ r ∈ rs, r.length = okFieldsExec) (h : storeAll okFieldsExec arr 0 rs = some arr')
+    (i : Nat) (r : List Int) (hr : rs[i]? = some r) (j : Nat) (v : Int) (hv : r[j]? = some v) :
+    nvHandleId rs.length i = nvPairLocation rs.length i ∧ nvHandleId rs.length i < rs.length ∧
+    (∀ i', i' < rs.length → nvHandleId rs.length i' = nvPairLocation rs.length i → i' = i) ∧
+    arr'[entInfoIndex j (handleSlice i)]? = some (some v) := by
+  have hi : i < rs.length := by
+    rcases Nat.lt_or_ge i rs.length with h' | h'
+    · exact h'
+    · rw [List.getElem?_eq_none h'] at hr; cases hr
+  refine ⟨?_, ?_, ?_, result_handles_ent_info rs arr arr' hlen h i r hr j v hv⟩
+  · unfold nvHandleId nvPairLocation; split <;> omega
+  · unfold nvHandleId; omega
+  · intro i' hi'
+    unfold nvHandleId nvPairLocation
+    split <;> omega
+
+/-- non-vacuity / the recorded NV layout for 3 pairs: returned qubits get virtual ids 2, 1, 0 and the
+pairs end in 2, 1, 0 -/
+example : (List.range 3).map (nvHandleId 3) = [2, 1, 0] ∧ (List.range 3).map (nvPairLocation 3) = [2, 1, 0] ∧
+    (List.range 3).map (fun i => handleLayout true false 3 i) = [(2, 0), (1, 1), (0, 2)] := by decide
+
 /-- non-vacuity of the result theorems: two responses stored into a fresh array of 20 entries -/
 example : (storeAll okFieldsExec (List.replicate 20 none) 0
     [[0, 1, 102, 0, 4, 5, 6, 7, 8, 3], [0, 2, 103, 0, 5, 5, 6, 70, 80, 1]]).map (fun a => a[1 * 10 + 7]?) =
